@@ -286,4 +286,23 @@ func Stack.WaitIsEmpty
   modifies monitor(b)
   ghost before call Stack.WaitSizeIsBelow: assert arg1 == 1
   ensures unlocked(b.mutex)
+
+-- PopOrWait: the caller's wait condition is consulted BEFORE every wait - a goroutine goes to sleep on elementAdded only
+-- after the condition has just said "keep waiting" (a condition that already says "stop" - e.g. a shutdown signalled
+-- before the call - must end the call at once: nobody will wake a goroutine that goes to sleep first and asks later).
+-- (checked for this ordering only - opt only-ghost-asserts: the removal side of the stack and the deferred broadcast are
+-- not under contract)
+func Stack.PopOrWait
+  instantiate T: int
+  opt only-ghost-asserts
+  opt assume-type-asserts
+  requires b != nil && unlocked(b.mutex) && b.elementAdded != nil && waitCondition != nil
+  callback waitCondition() (c)
+  modifies everything
+  ghost local asked Bool        -- the condition has said "keep waiting" since the last wait (ghost)
+  ghost at entry: asked = false
+  ghost after call Stack.PopOrWait#waitCondition: asked = result
+  ghost before wait: assert asked
+  ghost after wait: asked = false
+  loop 1 invariant b != nil
 @*/
